@@ -46,7 +46,7 @@ m = {
  ],
  'checks': checks,
  'not_applicable': na,
- 'notes': 'Technique family: runtime monitoring and sanitizers. See DESIGN.md. known_findings.json lists fixed defects (fix: commits in /repo); no open known findings suppress anything.',
+ 'notes': 'Technique family: runtime monitoring and sanitizers. See DESIGN.md. KNOWN_FINDINGS.txt lists fixed defects (fix: commits in /repo); no open known findings suppress anything.',
 }
 json.dump(m, open(os.path.join(ROOT,'MANIFEST.json'),'w'), indent=1)
 try:
